@@ -332,11 +332,14 @@ pub(crate) fn well_formed_result(t: &lber::structure::StructureTag) -> bool {
     };
     let mut comps = comps.iter();
     match comps.next() {
+        // the result code must have content and fit the 32 bits it is stored in
         Some(StructureTag {
             class: TagClass::Universal,
             id,
-            payload: PL::P(_),
-        }) if *id == Types::Enumerated as u64 => (),
+            payload: PL::P(ref rc),
+        }) if *id == Types::Enumerated as u64
+            && !rc.is_empty()
+            && rc.iter().skip_while(|b| **b == 0).count() <= 4 => {}
         _ => return false,
     }
     if !utf8_primitive(comps.next()) || !utf8_primitive(comps.next()) {
